@@ -1,5 +1,6 @@
 import Ledger.Sched.Writers
 import Ledger.Proofs.SchedHandles
+import Ledger.Proofs.SchedWitnesses
 
 /-!
 # C34 — async log blocks (HASH_LOGS=ASYNC)
@@ -16,10 +17,6 @@ PostgreSQL (snapshot of the procedure call) is MODELLED (LeanPG).
 namespace Ledger.C34
 open Ledger.Sched
 
-/-- chained from `last`: every block starts where the previous one ends and is not empty -/
-def ChainedFrom : Nat → List Blk → Prop
-  | _, [] => True
-  | last, b :: r => b.from_ = last ∧ last < b.to ∧ ChainedFrom b.to r
 
 /-- `blocks_contiguous`: the blocks appended by one `create_blocks` call form a contiguous chain
     starting at the previous block's end, for any committed ids, block size and fuel. -/
@@ -59,16 +56,7 @@ example : mkBlocks 1 2 5 0 [1, 2, 4] =
 
 /-! ## the counterexample: a log that commits after a higher id was put into a block -/
 
-def cxA : Send := { l := 1, sync := false, src := 1, dst := 2, amt := 1, allow := .unbounded }
-def cxB : Send := { l := 1, sync := false, src := 3, dst := 4, amt := 1, allow := .unbounded }
-def cxWorld : World :=
-  { sess := fun s =>
-      if s = 1 then { prog := sendProg cxA true } else if s = 2 then { prog := sendProg cxB true }
-      else if s = 3 ∨ s = 4 then { prog := blocksProg 1 100 } else {} }
 
-/-- A: BEGIN, UpdateVolumes, InsertTransaction, InsertLog (log id 1, uncommitted) · B: whole request (log id 2), COMMIT ·
-    block builder: `create_blocks` → block (0, 2] hashed over log 2 only · A: COMMIT · block builder again (quiescence) -/
-def cxSchedule : Schedule := [1, 1, 1, 1, 2, 2, 2, 2, 2, 3, 1, 4]
 
 /-- After quiescence both logs are committed, the only block spans ids (0, 2], and its hash covers
     log 2 alone: log 1 is skipped for ever. `blocks_partition_committed_logs` is false. -/
